@@ -52,15 +52,19 @@ def gen_constants():
     into per-property problems by translator_problems()."""
     rc, out = sh([sys.executable, os.path.join(VERIF, "tools", "gen_constants.py")])
     rc2, out2 = sh([sys.executable, os.path.join(VERIF, "tools", "gen_checksum.py")])
+    rc3, out3 = sh([sys.executable, os.path.join(VERIF, "tools", "gen_logic.py")])
     st = {"failed": []}
     sp = os.path.join(BUILD, "translator_status.json")
     if rc in (0, 3) and os.path.exists(sp):
         st = json.load(open(sp))
     st["checksum_translator"] = None if rc2 == 0 else out2.strip()[-400:]
     st["constants_fatal"] = None if rc in (0, 3) else out.strip()[-400:]
+    lp = os.path.join(BUILD, "logic_status.json")
+    st["logic_failed"] = json.load(open(lp)).get("failed", []) if rc3 in (0, 3) and os.path.exists(lp) else [
+        {"function": "*", "group": "*", "source": "tools/gen_logic.py", "why": out3.strip()[-300:]}]
     with open(sp, "w") as f:
         json.dump(st, f, indent=1)
-    return rc in (0, 3), (out.strip() + " " + out2.strip()).strip()
+    return rc in (0, 3), (out.strip() + " " + out2.strip() + " " + out3.strip()).strip()
 
 
 def coq_closure(prop):
@@ -75,6 +79,8 @@ def coq_closure(prop):
         for m in re.finditer(r"From\s+Copia\s+Require\s+(?:Import\s+|Export\s+)?(.*?)\.(?=\s|$)", src, re.S):
             for mod in m.group(1).split():
                 todo.append(mod.replace(".", "/") + ".v")
+        for m in re.finditer(r"^\s*Require\s+(?:Import\s+|Export\s+)?Copia\.([\w.]+?)\.(?=\s|$)", src, re.M):
+            todo.append(m.group(1).replace(".", "/") + ".v")
     return seen
 
 
@@ -96,6 +102,10 @@ def translator_problems(prop):
             out.append("constants translator, group %s: %s (the model of this property uses %s)" % (g["group"], g["why"], ", ".join(used[:6])))
     if st.get("checksum_translator") and "Model/Checksum.v" in files:
         out.append("checksum translator: " + st["checksum_translator"])
+    for f in st.get("logic_failed", []):
+        # a function that could not be translated concerns the properties whose Props file restates its tie
+        if f["group"] == "*" or ("Proofs/Tie%s.v" % f["group"]) in files:
+            out.append("logic translator: %s (%s) could not be translated from the current source: %s" % (f["function"], f["source"], f["why"]))
     return out
 
 
@@ -454,6 +464,7 @@ TRUSTED_BASE_COMMON = [
     "Coq 8.16.1 kernel (coqc; vm_compute used in witness/non-vacuity lemmas; native_compute not used)",
     "no axioms declared by the development; Print Assumptions output audited against a standard-library allow-list on every run",
     "tools/gen_constants.py (regex translator of source constants into coq/Gen/Constants.v)",
+    "tools/gen_logic.py + tools/rustmini.py (parser and translator of the pure decision functions - Fingerprint::same, reconcile_path, cas_decide, needs_transfer, glob_match, MessageType::from_u8, FrameHeader::validate, Delta::validate, safe_join - from the current Rust source into coq/Gen/<Group>Gen.v; Proofs/Tie<Group>.v proves generated = model for all inputs; the tables that name model vocabulary for Rust paths/fields/error texts, and the reading of usize index arithmetic as exact, are trusted)",
     "extraction: Require Extraction + ExtrOcamlBasic only (bool/option/unit/list/prod/sumbool/sumor mapped to OCaml types; N/Z/positive/nat extracted as inductives); OCaml 4.13.1 ocamlopt; ocaml/driver.ml parsing/printing glue",
     "correspondence harness (Rust crate /verif/harness: generators, canonicalisation, oracles); BLAKE3 crate as digest oracle",
 ]
